@@ -104,7 +104,7 @@ def main() -> int:  # noqa: C901, PLR0915
     def resources_left(self):
         r = orig_rl(self)
         if state["in_search"]:
-            emit("LoopTest", result=bool(r), conds=sc_snapshot(self), execs=state["execs"])
+            emit("LoopTest", result=bool(r), conds=sc_snapshot(self), execs=state["execs"], stmts=state.get("stmts", 0))
         return r
 
     galg.GenerationAlgorithm.resources_left = resources_left
@@ -114,7 +114,7 @@ def main() -> int:  # noqa: C901, PLR0915
     def after_search_iteration(self, best):
         r = orig_asi(self, best)
         if state["in_search"]:
-            emit("IterEnd", conds=sc_snapshot(self), execs=state["execs"])
+            emit("IterEnd", conds=sc_snapshot(self), execs=state["execs"], stmts=state.get("stmts", 0))
         return r
 
     galg.GenerationAlgorithm.after_search_iteration = after_search_iteration
@@ -124,7 +124,7 @@ def main() -> int:  # noqa: C901, PLR0915
     def before_first_search_iteration(self, initial):
         r = orig_bfsi(self, initial)
         if state["in_search"]:
-            emit("FirstIter", conds=sc_snapshot(self), execs=state["execs"])
+            emit("FirstIter", conds=sc_snapshot(self), execs=state["execs"], stmts=state.get("stmts", 0))
         return r
 
     galg.GenerationAlgorithm.before_first_search_iteration = before_first_search_iteration
@@ -136,7 +136,12 @@ def main() -> int:  # noqa: C901, PLR0915
             if state["in_search"]:
                 state["execs"] += 1
                 emit("Exec", n=state["execs"], size=test_case.size())
-            return orig(self, test_case, *a, **k)
+            res = orig(self, test_case, *a, **k)
+            if state["in_search"]:
+                # statements executed since the search started, summed by the harness from the results
+                # (the stopping condition's own counter is what is being checked)
+                state["stmts"] = state.get("stmts", 0) + int(getattr(res, "num_executed_statements", 0) or 0)
+            return res
 
         cls.execute = execute
 
@@ -156,7 +161,7 @@ def main() -> int:  # noqa: C901, PLR0915
                 res = og()
             finally:
                 state["in_search"] = False
-            emit("SearchEnd", conds=sc_snapshot(alg), execs=state["execs"], suite=snap_suite(res))
+            emit("SearchEnd", conds=sc_snapshot(alg), execs=state["execs"], stmts=state.get("stmts", 0), suite=snap_suite(res))
             return res
 
         alg.generate_tests = generate_tests
